@@ -1265,6 +1265,19 @@ class C10(DamageBase):
         crc = zlib.crc32(bytes([1]) + entry) & 0xFFFFFFFF
         fr = struct.pack("<IHB", crc, len(entry), 1) + entry
         cases.append(("u64max", ["open af", "create =q", "drop", "damage 0 19 x%s" % fr.hex(), "open af"]))
+        # known finding F9: the last WAL file is LONGER than a full file (5 blocks), the reader ends 4 bytes before a
+        # block end beyond the file size, an empty queue with a ~32 KiB name must be re-recorded by the recovery GC:
+        # its padding write rolls over to a misaligned offset and the assert in RollingWriter::write fires
+        B = mrl.B
+        end_of_record = B + 7 + (11 + 32760 - (B - 7))
+        payload = b"\xff" * (B - 4 - 7)
+        crc = zlib.crc32(bytes([1]) + payload) & 0xFFFFFFFF
+        block = struct.pack("<IHB", crc, len(payload), 1) + payload + bytes(4)
+        content1 = b"\xff" * (4 * B) + block
+        if mrl.NBV == 4:
+            cases.append(("overlong", ["open af", "create @32760:1", "drop",
+                                       "damage 0 %d x%s" % (end_of_record, (b"\xff" * (4 * B - end_of_record)).hex()),
+                                       "seedfile %s f %s" % (("wal-%020d" % 1).encode().hex(), content1.hex()), "open af"]))
         return cases
 
     def nontrivial(self, cmds, tr):
@@ -1283,6 +1296,9 @@ class C10(DamageBase):
                 bad = "the driver died: %s" % out
             if bad:
                 forged_max = any(("ff" * 8) in x or ("fe" + "ff" * 7) in x for x in cmds if x.startswith("damage "))
+                if cid.endswith("overlong") and "open: out open err=Panic" in bad:
+                    vs.append({"msg": "cmd %d: %s (last WAL file longer than a full file)" % (i, bad), "shape": "overlong-file"})
+                    return vs
                 shape = "position-u64-max" if (cid.endswith("u64max") or (forged_max and "Hang" not in bad and "driver died" not in bad)) else "panic-or-hang"
                 vs.append({"msg": "cmd %d: %s" % (i, bad), "shape": shape})
                 return vs
